@@ -188,38 +188,69 @@ def rule_b(ck, R):
             if d.is_const() and d.c == 6 and any(x[0] == 'call' and 'crc16' in x[1] for x in sym.subterms(e.args[1])):
                 okpos = True
     ck.verdict(okpos, 'C07.b', 'header-crc:position', R.where('encode_header'), 'the header checksum is stored big-endian in word 6' if okpos else 'header checksum is not stored in word 6')
-    # payload_plausible
+    # payload_plausible: exact accepted set per frame type, decided by feasibility on every path
+    # Oracle = doc/regp.txt section 2: "The Block Size parameter specifies the size of a message's payload, except for
+    # READ-REQUEST messages" (a read request "carries no payload"), and 2.1.5: "In META messages, only the meta field is
+    # used".  Write responses do carry payload when their code prescribes one (3.1.5, 3.1.8 - 3.1.11), announced by
+    # block size 4.
+    #   READ-RESPONSE, WRITE-REQUEST, WRITE-RESPONSE: accept  <=>  block size == actual payload size
+    #   READ-REQUEST, META:                           accept  <=>  actual payload size == 0
     ps = R.paths('payload_plausible', 'C07.b')
     if ps is not None:
         types = {n: v for n, v in R.u.enum_decls.get('RPFrameType', []) if v >= 0}
-        carry = {'RP_FRAME_READ_RESPONSE', 'RP_FRAME_WRITE_REQUEST'}
+        carry = {'RP_FRAME_READ_RESPONSE', 'RP_FRAME_WRITE_REQUEST', 'RP_FRAME_WRITE_RESPONSE'}
         bad = None
         seen = set()
+        engp = R.eng
+        BS = ('f', ('&', ('f', F, 'header')), 'blocksize')
         for p in ps:
+            if p.end != 'return' or p.ret is None:
+                continue
             tv = None
+            excluded = set()
             for c in p.cond_terms():
-                if c[0] == 'cmp' and c[1] == '==' and 'header.type' in fmt(c[2]) and sym.is_c(c[3]):
-                    tv = c[3][1]
-            if tv is None:
-                if not (p.ret is not None and p.ret[0] == 'c' and p.ret[1] < 0):
-                    bad = 'unknown frame type is not rejected'
+                if c[0] == 'cmp' and 'header.type' in fmt(c[2]) and sym.is_c(c[3]):
+                    if c[1] == '==':
+                        tv = c[3][1]
+                    elif c[1] == '!=':
+                        excluded.add(c[3][1])
+            applies = [n for n, v in types.items() if (tv is None and v not in excluded) or v == tv]
+            accept = p.ret == C(0)
+            reject = sym.is_c(p.ret) and p.ret[1] < 0
+            if not (accept or reject):
+                bad = bad or 'returns %s' % fmt(p.ret)
                 continue
-            nm = [n for n, v in types.items() if v == tv]
-            if not nm:
-                continue
-            seen.add(nm[0])
-            conds = [fmt(c) for c in p.cond_terms()]
-            if p.ret == C(0):
-                if nm[0] in carry:
-                    if not any('blocksize' in c and '==' in c and 'payload.size' in c for c in conds):
-                        bad = '%s accepted without block size == actual payload size' % nm[0]
+            # the actual size term of this path: what block size is compared with, or what is compared with 0
+            acts = [x for c in p.cond_terms() if c[0] == 'cmp' for x in (c[2], c[3]) if 'payload.size' in fmt(x) and 'header.type' not in fmt(x)]
+            if tv is None and not applies and reject:
+                continue                                    # default arm: unknown types rejected
+            for nm in applies:
+                seen.add(nm)
+                if not acts:
+                    bad = bad or '%s is %s without looking at the payload size' % (nm, 'accepted' if accept else 'rejected')
+                    continue
+                A = L(acts[0])
+                if nm in carry:
+                    if accept and (engp.feasible(p.cond_terms(), [L(BS) - A + 1]) or engp.feasible(p.cond_terms(), [A - L(BS) + 1])):
+                        bad = bad or '%s is accepted on a path where block size and actual payload size may differ' % nm
+                    if reject and engp.feasible(p.cond_terms(), [L(BS) - A, A - L(BS)]):
+                        bad = bad or ('%s is rejected on the path {%s} although its payload may have exactly the announced block size: '
+                                      'a response carrying the 32-bit payload the document prescribes for its code is taken for a damaged frame'
+                                      % (nm, '; '.join(fmt(c) for c in p.cond_terms())[:200]))
                 else:
-                    if not any('payload.size' in c and c.rstrip().endswith('== 0') for c in conds):
-                        bad = '%s accepted with payload' % nm[0]
+                    if accept and engp.feasible(p.cond_terms(), [Lin.const(1) - A]):
+                        bad = bad or ('%s (a frame type without payload) is accepted on the path {%s} where the actual payload size may be non-zero: '
+                                      'an extended frame is taken for a valid one' % (nm, '; '.join(fmt(c) for c in p.cond_terms())[:200]))
+                    if reject and not engp.feasible(p.cond_terms(), [Lin.const(1) - A]):
+                        bad = bad or '%s is rejected although it carries no payload' % nm
         if set(types) - seen:
             bad = bad or 'no arm for %s' % sorted(set(types) - seen)
+        unknown_ok = any(sym.is_c(p.ret) and p.ret[1] < 0 and not any(c[0] == 'cmp' and c[1] == '==' and 'header.type' in fmt(c[2]) for c in p.cond_terms())
+                         for p in ps if p.ret is not None)
+        if not unknown_ok:
+            bad = bad or 'unknown frame type is not rejected'
         ck.verdict(bad is None, 'C07.b', 'payload_plausible', R.where('payload_plausible'),
-                   'payload-carrying types need block size == actual size (in words for WORD-SIZE-16), all other types need no payload; unknown types rejected' if bad is None else bad)
+                   'READ-RESPONSE, WRITE-REQUEST and WRITE-RESPONSE are accepted exactly when block size == actual size (in words for WORD-SIZE-16), READ-REQUEST and META exactly when there is no payload; unknown types rejected' if bad is None else bad)
     # check_payload: variant by WORD-SIZE-16 and extent in units of the payload
     ps = R.paths('check_payload', 'C07.b')
     if ps is not None:
